@@ -189,6 +189,10 @@ def positions_case(ctx, case):
         else:
             continue
         loc = _known(node)
+        if loc is None and kind == "param" and spelling is None:
+            # a parameter without a name: there is no identifier whose position could be reported
+            ctx.label("unnamed-parameter")
+            continue
         if loc is None:
             ctx.fail("positions|missing-location|" + kind, "%s %r has no location\n%s" % (kind, spelling, text), case)
             return
@@ -227,9 +231,12 @@ def positions_case(ctx, case):
     # --- composite ranges after UpdateLocations
     try:
         with adapter.quiet():
+            # as the compiler does: compound assignments are rewritten first, then the ranges are computed
+            from nsl.passes import RewriteAssignEqualOperations
+            RewriteAssignEqualOperations.GetPass().Process(module)
             UpdateLocations.GetPass().Process(module)
     except Exception as e:
-        ctx.fail("hull|pass-exception|" + type(e).__name__, "UpdateLocations raised %r\n%s" % (e, text), case)
+        ctx.fail("hull|pass-exception|" + type(e).__name__, "RewriteAssignEqualOperations / UpdateLocations raised %r\n%s" % (e, text), case)
         return
     for node, parent in _collect(module):
         loc = _known(node)
@@ -307,7 +314,11 @@ def redecl_case(draw):
     else:
         stmts = pre + inner
     stmts.append(M.Return(M.Var("r", INT)))
-    f = M.Func("f", [(INT, "p0"), (INT, "p1")], INT, M.Block(stmts), True)
+    params = [(INT, "p0"), (INT, "p1")]
+    # parameters written without a name, before / between / after the named ones
+    for _ in range(draw(st.integers(0, 2)) if draw(st.booleans()) else 0):
+        params.insert(draw(st.integers(0, len(params))), (draw(st.sampled_from([INT, FLOAT])), "unnamed_%d" % len(params)))
+    f = M.Func("f", params, INT, M.Block(stmts), True)
     prog = M.Program([], [(INT, "g0"), (FLOAT, "g1")], [f])
     pr = M.Printer("full")
     pr.program(prog)
